@@ -121,7 +121,7 @@ def run_sched_property(pid, tier, seed, level="other", level_note=None, extra_ca
             common.violation(pid, dict(kind="sched", **what), found_input=False)
             viol_count = max(1, len(mismatches))
         xcc = None
-        if pid == "C03" and not viol_count:
+        if pid in ("C03", "C04") and not viol_count:
             xn, xsteps, xmism, xerr = crosscheck.run_conc(byid, go, tmp, limit_steps=3000 if tier == "quick" else 20000)
             xcc = dict(runs=xn, steps=xsteps, mismatches=xmism, error=xerr)
             if xerr or xmism:
